@@ -2,7 +2,15 @@ use std::io;
 
 use crate::PersistAction;
 
+#[cfg(not(any(
+    quickwit_oss_mrecordlog_verif_block16,
+    quickwit_oss_mrecordlog_verif_block32
+)))]
 pub const BLOCK_NUM_BYTES: usize = 32_768;
+#[cfg(quickwit_oss_mrecordlog_verif_block16)]
+pub const BLOCK_NUM_BYTES: usize = 16;
+#[cfg(quickwit_oss_mrecordlog_verif_block32)]
+pub const BLOCK_NUM_BYTES: usize = 32;
 
 pub trait BlockRead {
     /// Loads the next block.
